@@ -519,7 +519,8 @@ class PacketTransmitter(Elaboratable):
         # If we need to retry sending our packets, we'll need to reset our pending packet count.
         # Otherwise, we increment and decrement our "to send" counts normally.
         with m.If(self.retry_required):
-            m.d.ss += packets_to_send.eq(packets_awaiting_ack)
+            # (a header accepted in this very cycle isn't counted in packets_awaiting_ack yet)
+            m.d.ss += packets_to_send.eq(packets_awaiting_ack + enqueue_send)
         with m.Elif(enqueue_send & ~dequeue_send):
             m.d.ss += packets_to_send.eq(packets_to_send + 1)
         with m.Elif(dequeue_send & ~enqueue_send):
@@ -606,14 +607,24 @@ class PacketTransmitter(Elaboratable):
             m.d.ss += retry_pending.eq(1)
 
 
+        # Track whether our raw transmitter is busy with a packet, so we know whether a retry request
+        # arrives while a (now stale) packet is still on its way out.
+        tx_busy         = Signal()
+        stale_in_flight = Signal()
+        with m.If(packet_tx.done):
+            m.d.ss += tx_busy.eq(0)
+        with m.Elif(packet_tx.generate):
+            m.d.ss += tx_busy.eq(1)
+
         with m.FSM(domain="ss"):
 
             # DISPATCH_PACKET -- wait packet transmissions to be scheduled, and prepare
             # our local transmitter with the proper data to send them.
             with m.State("DISPATCH_PACKET"):
 
-                # If we have packets to send, pass them to our transmitter.
-                with m.If(self.bringup_complete & (packets_to_send != 0)):
+                # If we have packets to send, pass them to our transmitter. (If an LBAD is arriving
+                # right now, wait a cycle: our read pointer and retry flag are just being set up.)
+                with m.If(self.bringup_complete & (packets_to_send != 0) & ~self.retry_required):
 
                     with m.If(~retry_pending):
                         # Wait until the packet is sent.
@@ -646,14 +657,22 @@ class PacketTransmitter(Elaboratable):
                 m.d.comb += packet_tx.header.delayed.eq(1)
                 m.d.comb += packet_tx.generate.eq(~self.lrty_pending)
 
+                # If another LBAD arrives while a retransmission is on its way out, that packet is stale:
+                # our read pointer and counters have just been set up anew; don't advance them for it.
+                with m.If(self.retry_required & (tx_busy | packet_tx.generate)):
+                    m.d.ss += stale_in_flight.eq(1)
+
                 # We're done with this packet.
                 with m.If(packet_tx.done):
-                    m.d.comb += dequeue_send.eq(1)
+                    m.d.ss += stale_in_flight.eq(0)
 
-                    # If this was the last packet to retransmit, we're done handling this LBAD.
-                    with m.If(packets_to_send == 1):
-                        m.d.ss += retry_pending.eq(0)
-                        m.next = "DISPATCH_PACKET"
+                    with m.If(~stale_in_flight & ~self.retry_required):
+                        m.d.comb += dequeue_send.eq(1)
+
+                        # If this was the last packet to retransmit, we're done handling this LBAD.
+                        with m.If(packets_to_send == 1):
+                            m.d.ss += retry_pending.eq(0)
+                            m.next = "DISPATCH_PACKET"
 
 
         #
